@@ -40,7 +40,22 @@ let arg_op (t : string) : block_op =
   | _ -> failwith ("arg_op " ^ t)
 let show_obs = show_list (show_outcome show_bytes)
 
+let arg_pyval (t : string) : pyval =
+  match t with
+  | "N" -> VNone | "T" -> VBool true | "F" -> VBool false
+  | _ -> VInt (arg_z t)
+let bytes_of_ascii (s : string) : byte list = List.init (String.length s) (fun i -> byte_tab.(Char.code s.[i]))
+let arg_kw (t : string) =
+  match String.index_opt t '=' with
+  | Some i -> (bytes_of_ascii (String.sub t 0 i), arg_pyval (String.sub t (i + 1) (String.length t - i - 1)))
+  | None -> failwith ("arg_kw " ^ t)
+
 let dispatch f args = match f, args with
+  | "block_parse_call", [coin; pos; kw; s] ->
+    let coin = (match coin with "sbtc" -> "btc" | "sltc" -> "ltc" | _ -> failwith "coin") in
+    show_outcome (show_block_result (fun t -> t.d_raw))
+      (block_parse_call (parse_tx_oracle ("txparse_" ^ coin)) (fun t -> t.d_txid) dsha
+         (arg_list arg_pyval pos) (arg_list arg_kw kw) (arg_bytes s))
   | "block_history", [v; p; m; t; d; n; ops] ->
     show_obs (obj_run dsha { o_header = mk_header v p m t d n; o_memo = None } (arg_list arg_op ops))
   | "block_history_spec", [v; p; m; t; d; n; ops] ->
